@@ -337,19 +337,25 @@ Definition cls_of (c : name) (r : list acls) : list (name * bool) :=
   match lookup c r with Some ms => ms | None => [] end.
 Definition sgn (neg : bool) (e : expr) : expr := if neg then mk_un Neg e else e.
 
+(* values that are expressions in other constants are first resolved among themselves
+   (fixes/C15_constant_values_resolve_expressions.diff) *)
+Definition resolve_defs (d : list (name * expr)) : list (name * expr) * bool :=
+  if existsb (fun '(_, e) => negb (is_const e)) d then
+    let '(vals, conv) := subst_fix SUBSTITUTE_LOOP_LIMIT (map fst d) (map snd d) in
+    (combine (map fst d) vals, conv)
+  else (d, true).
+
 Definition replace_const_values (m : model) : model :=
-  let s := flat_map (fun '(x, v) => match v with Some e => [(x, e)] | None => [] end) (consts m) in
+  let '(s, conv) :=
+    resolve_defs (flat_map (fun '(x, v) => match v with Some e => [(x, e)] | None => [] end) (consts m)) in
   (* a constant without a value is substituted by NaN: outside the model *)
   if existsb (fun '(_, v) => match v with None => true | _ => false end) (consts m) then set_failed m
   else
   let r' := fold_left (fun r '(x, _) => arel_remove x r) (consts m) (arel m) in
-  let dropped := flat_map (fun '(x, v) =>
-                    match v with
-                    | Some e => map (fun '(a, neg) => (a, sgn neg e)) (cls_of x (arel m))
-                    | None => [] end) (consts m) in
+  let dropped := flat_map (fun '(x, e) => map (fun '(a, neg) => (a, sgn neg e)) (cls_of x (arel m))) s in
   Model (states m) (ders m) (algs m) (inputs m) [] (subst_vals s (params m))
         (map (subst s) (eqs m)) (map (subst s) (ieqs m)) r' (ghost m ++ s ++ dropped)
-        (warned m) (failed m).
+        (warned m || negb conv) (failed m).
 
 (* ---- eliminable_variable_expression, model.py:720-914 (algebraic variables only) ---- *)
 Inductive ext := ExtNone | ExtAlg (x : name) (v : expr) | ExtState.
